@@ -554,6 +554,9 @@ static std::string compareSync(SoPlex& sp, const LPModel& M, const std::vector<s
             std::to_string(sp.numColsRational()) + ", model " + std::to_string(m) + "x" + std::to_string(n);
    if(sp.numRows() != m || sp.numCols() != n) return "dims.real:real LP is " + std::to_string(sp.numRows()) + "x" + std::to_string(
                sp.numCols()) + ", model " + std::to_string(m) + "x" + std::to_string(n);
+   // the bound-type arrays of the exact solver must have exactly one entry per row / column (also for an empty LP)
+   if(sp._rowTypes.size() != m) return "rowtypes.size:_rowTypes has " + std::to_string(sp._rowTypes.size()) + " entries for " + std::to_string(m) + " rows";
+   if(sp._colTypes.size() != n) return "coltypes.size:_colTypes has " + std::to_string(sp._colTypes.size()) + " entries for " + std::to_string(n) + " columns";
    auto img = [](const Q & q, double d, bool isLowerLike) -> bool
    {
       (void)isLowerLike;
@@ -591,7 +594,6 @@ static std::string compareSync(SoPlex& sp, const LPModel& M, const std::vector<s
       // bound-type classification used by the exact solver
       int want = isNInf(M.lhs[i]) ? (isPInf(M.rhs[i]) ? SoPlex::RANGETYPE_FREE : SoPlex::RANGETYPE_UPPER) : (isPInf(M.rhs[i]) ? SoPlex::RANGETYPE_LOWER :
                  (M.lhs[i] == M.rhs[i] ? SoPlex::RANGETYPE_FIXED : SoPlex::RANGETYPE_BOXED));
-      if(sp._rowTypes.size() != m) return "rowtypes.size:_rowTypes has " + std::to_string(sp._rowTypes.size()) + " entries for " + std::to_string(m) + " rows";
       if((int)sp._rowTypes[i] != want) return "rowtypes:row " + std::to_string(i) + " classified " + std::to_string((int)sp._rowTypes[i]) + ", rational sides say " + std::to_string(
                      want);
    }
@@ -613,7 +615,6 @@ static std::string compareSync(SoPlex& sp, const LPModel& M, const std::vector<s
       for(int i = 0; i < m; i++) if(dense[i] != M.A[i][j]) return "rational.colvec:colVectorRational(" + std::to_string(j) + ")[" + std::to_string(i) + "] differs from the model";
       int want = isNInf(M.lo[j]) ? (isPInf(M.up[j]) ? SoPlex::RANGETYPE_FREE : SoPlex::RANGETYPE_UPPER) : (isPInf(M.up[j]) ? SoPlex::RANGETYPE_LOWER :
                  (M.lo[j] == M.up[j] ? SoPlex::RANGETYPE_FIXED : SoPlex::RANGETYPE_BOXED));
-      if(sp._colTypes.size() != n) return "coltypes.size:_colTypes has " + std::to_string(sp._colTypes.size()) + " entries for " + std::to_string(n) + " columns";
       if((int)sp._colTypes[j] != want) return "coltypes:column " + std::to_string(j) + " classified " + std::to_string((int)sp._colTypes[j]) + ", rational bounds say " + std::to_string(
                      want);
    }
@@ -675,6 +676,7 @@ static XRes c07Run(uint64_t sub, int nsteps, bool count)
       }
    }
    int mode = SoPlex::SYNCMODE_AUTO;
+   int rebuild = 0;
    std::string cur = "?";
    try
    {
@@ -682,6 +684,13 @@ static XRes c07Run(uint64_t sub, int nsteps, bool count)
       {
          int m = M.m, n = M.n;
          int op = g.range(0, 47);
+         if(rebuild > 0)
+         {
+            // after a clearLP*() rebuild the LP through a mix of real and rational add calls
+            rebuild--;
+            static const int addOps[8] = {2, 3, 5, 29, 0, 1, 4, 28};
+            op = addOps[n < 2 ? g.range(0, 3) : g.range(0, 7)];
+         }
          g_tinyOk = scalingOff && (op == 8 || op == 9 || op == 10 || op == 11 || op == 12 || op == 13 || op == 14 || (op >= 16 && op <= 22) || (op >= 30 && op <= 32) || op == 34 || op == 35 || op == 36);
          bool fancy = g.chance(0.6);
          bool checked = true;
@@ -1431,6 +1440,18 @@ static XRes c07Run(uint64_t sub, int nsteps, bool count)
             sp.setIntParam(SoPlex::ITERLIMIT, 2000, true);
             sp.optimize();
             if(count) S.count("c07.solves");
+            break;
+         }
+         case 45:
+         {
+            // clear both LPs through either interface, then rebuild (bound classes of the new rows/columns differ from the old ones)
+            if(!g.chance(0.35)) continue;
+            bool viaReal = g.chance(0.5);
+            cur = viaReal ? "clearLPReal" : "clearLPRational";
+            if(viaReal) sp.clearLPReal();
+            else sp.clearLPRational();
+            M.clear();
+            rebuild = g.range(4, 9);
             break;
          }
          default:
